@@ -530,7 +530,7 @@ class Enumerator:
             b = t
             while isinstance(b, (ast.Subscript, ast.Attribute)):
                 b = b.value
-            if isinstance(b, ast.Name) and isinstance(t, ast.Subscript):
+            if isinstance(b, ast.Name) and isinstance(t, ast.Subscript) and b.id != "self":
                 self._bump(p, b.id)
             return
         raise AnalysisError(f"unsupported assignment target {type(t).__name__} in {fi.qualname}")
